@@ -610,10 +610,12 @@ def main() -> int:
         f'{prop} {tier}: evaluations={merged.evaluations} distinct_nontrivial={len(merged.nontrivial)} '
         f'known_hits={sum(merged.known_hits.values())} violations={len(seen)} wall={time.time() - started:.1f}s'
     )
+    if seen:
+        return 1
     if merged.evaluations == 0 or len(merged.nontrivial) < 2:
         print(f'HARNESS-ERROR property={prop} generator produced too few non-trivial cases')
         return 2
-    return 1 if seen else 0
+    return 0
 
 
 if __name__ == '__main__':
